@@ -409,13 +409,72 @@ def pollWrite {C : Type} (P : Params) (w : WireOps C) (s : WriteSock C) (c : WCa
     match encryptStep P w s' pos n with
     | (s'', o) => (s'', c', o)
 
-/-- `poll_flush` (the inner `poll_flush` of the carrier always succeeds). -/
+/-- The first half of `poll_flush`: "Flush internal buffer of encrypted messages" (`ok` = the loop was
+left with `write_state = Idle`; the inner `poll_flush` that follows is in `pollFlushE`). -/
 def pollFlush {C : Type} (s : WriteSock C) (c : WCarrier C) : WriteSock C × WCarrier C × WOut :=
   match drain (drainFuel s) s c with
   | (s', c', .err e) => (s', c', .err e)
   | (s', c', .panic m) => (s', c', .panic m)
   | (s', c', .blocked) => (s', c', .pending)
   | (s', c', .idle) => (s', c', .ok 0)
+
+/-! ## Teardown: the complete `poll_flush`, and `poll_close` -/
+
+/-- Script entry for one inner `poll_flush` / `poll_close` (empty script: `Ready(Ok(()))`). -/
+inductive FHint where
+  | pend | err
+deriving DecidableEq, Repr
+
+/-- The writer's carrier with its flush/close half. -/
+structure WEnv (C : Type) where
+  wc : WCarrier C
+  /-- answers of the inner `poll_flush` -/
+  fscript : List FHint
+  /-- answers of the inner `poll_close` -/
+  cscript : List FHint
+  /-- `wc.out.size` at the last successful inner `poll_flush` / `poll_close` -/
+  flushed : Nat
+  /-- the inner `poll_close` returned `Ready(Ok(()))` -/
+  closed : Bool
+
+/-- `poll_flush`: drain the encrypt buffer — `futures::ready!` on every inner `poll_write`, so a
+`Pending` (or an error) of the carrier ends the call — and only then "Flush underlying socket":
+`Pin::new(&mut this.io).poll_flush(cx)`. -/
+def pollFlushE {C : Type} (s : WriteSock C) (e : WEnv C) : WriteSock C × WEnv C × WOut :=
+  match pollFlush s e.wc with
+  | (s', c', .ok _) =>
+    match e.fscript with
+    | [] => (s', { e with wc := c', flushed := c'.out.size }, .ok 0)
+    | .pend :: r => (s', { e with wc := c', fscript := r }, .pending)
+    | .err :: r => (s', { e with wc := c', fscript := r }, .err .carrier)
+  | (s', c', o) => (s', { e with wc := c' }, o)
+
+/-- `poll_close`: `futures::ready!(self.as_mut().poll_flush(cx))?` — neither a `Pending` nor an error of
+the flush gets past this line — then `Pin::new(&mut self.io).poll_close(cx)`. -/
+def pollCloseE {C : Type} (s : WriteSock C) (e : WEnv C) : WriteSock C × WEnv C × WOut :=
+  match pollFlushE s e with
+  | (s', e', .ok _) =>
+    match e'.cscript with
+    | [] => (s', { e' with flushed := e'.wc.out.size, closed := true }, .ok 0)
+    | .pend :: r => (s', { e' with cscript := r }, .pending)
+    | .err :: r => (s', { e' with cscript := r }, .err .carrier)
+  | r => r
+
+/-- The caller's side of `flush().await` / `close().await`: poll again while the answer is `Pending`
+(at most `n` polls). -/
+def flushRun {C : Type} : Nat → WriteSock C → WEnv C → WriteSock C × WEnv C × WOut
+  | 0, s, e => (s, e, .pending)
+  | n + 1, s, e =>
+    match pollFlushE s e with
+    | (s', e', .pending) => flushRun n s' e'
+    | r => r
+
+def closeRun {C : Type} : Nat → WriteSock C → WEnv C → WriteSock C × WEnv C × WOut
+  | 0, s, e => (s, e, .pending)
+  | n + 1, s, e =>
+    match pollCloseE s e with
+    | (s', e', .pending) => closeRun n s' e'
+    | r => r
 
 /-! ## The free term model of the cipher -/
 
